@@ -28,6 +28,10 @@ T = 2 ** 30  # default upper bound of symbolic times
 MON = None  # the active monitor
 
 
+class StopRun(pysym.EngineSignal):
+    """Raised by a probe that has seen enough of this run."""
+
+
 def ET(v):
     return EventTime(v, US)
 
@@ -336,6 +340,82 @@ class Monitor:
             self.end_time = t.time
         if event.event_type == EventType.SCHEDULER_START:
             self.sched_invocations.append(t.time)
+            if "C18" in self.on:
+                self.frontier_oracle(sim, t)
+
+    def offer(self, sim, t, lookahead=None, rtg=None, retract=None):
+        sch = sim._scheduler
+        return sim._workload.get_schedulable_tasks(
+            t, sch.lookahead if lookahead is None else lookahead, sch.preemptive,
+            sch.retract_schedules if retract is None else retract, sim._worker_pools, sch.policy,
+            sch.branch_prediction_accuracy, sch.release_taskgraphs if rtg is None else rtg)
+
+    def frontier_oracle(self, sim, t):
+        """C18: what the policy is offered at this invocation."""
+        W = self.W
+        sch = sim._scheduler
+        offered = self.offer(sim, t)
+        names = [self.tname(x) for x in offered]
+        self.req("C18", "offered-once", len(names) == len(set(names)), str(names))
+        plan_ahead = not (sch.lookahead == EventTime.zero()) or sch.release_taskgraphs
+        for tn, task in W.tasks.items():
+            st = task.state
+            isin = tn in names
+            if st == TaskState.RELEASED:
+                # a released task whose release time has arrived must be offered (no starvation)
+                self.req("C18", "released-task-offered", sor(isin, snot(task.release_time <= t)), tn)
+            if st in (TaskState.COMPLETED, TaskState.CANCELLED):
+                self.req("C18", "finished-task-not-offered", not isin, f"{tn} {st.name}")
+            if st == TaskState.SCHEDULED:
+                self.req("C18", "scheduled-offered-only-with-retraction", (not isin) or sch.retract_schedules, tn)
+            if st == TaskState.RUNNING:
+                self.req("C18", "running-offered-only-with-preemption", (not isin) or sch.preemptive, tn)
+            if isin and not plan_ahead:
+                tg = W.task_graphs[W.graph_of[tn]]
+                ps = tg.get_parents(task)
+                if ps:
+                    done = [p.state == TaskState.COMPLETED for p in ps]
+                    ok = any(done) if task.terminal else all(done)
+                    self.req("C18", "no-plan-ahead-no-unfinished-predecessors", ok, f"{tn} offered in state {st.name}")
+        k = W.spec.get("c18_probe_at")
+        if k is not None and len(self.sched_invocations) == k:
+            env = self.env
+            l1 = env.int("probe_la1", 0, 2 ** 30)
+            l2 = env.int("probe_la2", 0, 2 ** 30)
+            env.assume(l1 <= l2)
+            for rtg in (False, True):
+                for retract in (False, True):
+                    o1 = [self.tname(x) for x in self.offer(sim, t, EventTime(l1, US), rtg, retract)]
+                    o2 = [self.tname(x) for x in self.offer(sim, t, EventTime(l2, US), rtg, retract)]
+                    self.req("C18", "offer-monotone-in-lookahead", all(x in o2 for x in o1), f"rtg={rtg} retract={retract} {o1} !<= {o2}")
+                o_f = [self.tname(x) for x in self.offer(sim, t, EventTime(l1, US), False, False)]
+                o_t = [self.tname(x) for x in self.offer(sim, t, EventTime(l1, US), True, False)]
+            self.req("C18", "offer-monotone-in-release_taskgraphs", all(x in o_t for x in o_f), f"{o_f} !<= {o_t}")
+            raise StopRun()
+
+    def notify_oracle(self, tg, task, released, cancelled):
+        """C18: on completion exactly the children whose every parent is complete are released
+        (conditional: the one chosen child; join: after its first completed parent)."""
+        tn = self.tname(task)
+        if tn is None or "C18" not in self.on:
+            return
+        W = self.W
+        tp = W.task_params[tn]
+        got = sorted(self.tname(x) for x in released)
+        if tp["conditional"]:
+            kids = tp["children"]
+            live = [k for k in kids if W.tasks[k].probability > 0 or k in got]
+            self.req("C18", "completion-releases-one-chosen-child", len(got) <= 1 and all(g in kids for g in got) and (len(got) == 1 or not live), f"{tn}: {got}")
+            return
+        exp = []
+        for c in tp["children"]:
+            ct = W.tasks[c]
+            if ct.state == TaskState.CANCELLED:
+                continue
+            ps = W.task_params[c]["parents"]
+            if W.task_params[c]["terminal"] or all(W.tasks[p].state == TaskState.COMPLETED for p in ps):
+                exp.append(c)
+        self.req("C18", "completion-releases-exactly-ready-children", got == sorted(exp), f"{tn}: released {got}, expected {sorted(exp)}")
 
     def after_event(self, sim, event):
         if event.event_type == EventType.TASK_PLACEMENT:
@@ -511,6 +591,17 @@ def _wrap_all():
     for nm in ("release", "schedule", "unschedule", "start", "finish", "cancel"):
         wrap_state(nm, lambda self, a, k: None)
 
+    o_notify = TaskGraph.notify_task_completion
+
+    def notify(self, task, finish_time):
+        r = o_notify(self, task, finish_time)
+        m = MON
+        if m is not None:
+            m.notify_oracle(self, task, r[0], r[1])
+        return r
+
+    TaskGraph.notify_task_completion = notify
+
 
 _wrap_all()
 
@@ -545,11 +636,14 @@ def run(env, spec, oracles, after=None):
     W.mon = mon
     MON = mon
     nonterm = None
+    stopped = False
     try:
         try:
             W.sim.simulate()
         except LoopBudget as e:
             nonterm = e.args[0]
+        except StopRun:
+            stopped = True
     finally:
         MON = None
     W.nonterminated = nonterm
@@ -558,7 +652,7 @@ def run(env, spec, oracles, after=None):
             env.require("C05:terminates", False, f"budget of {mon.budget} loop iterations exceeded at clock {W.sim._simulator_time.time}")
         else:
             raise LoopBudget(nonterm)
-    else:
+    elif not stopped:
         end_oracles(W, mon)
     if after is not None:
         after(W, mon)
